@@ -423,14 +423,17 @@ func (s *State) diffIOSACLs(al, bl []*cmd, diff []edit.Range) {
 	// Generate move command which sends add and delete command together
 	// as a single command.
 	// Ignore move if both positions belong to the same block.
-	moveACL := func(a *cmdAndPos, b *cmd, before, i int, moveOK bool) {
+	moveACL := func(a *cmdAndPos, b *cmd, before, i int, upOK, downOK bool) {
 		defer func() { a.cmd = nil }()
-		if moveOK {
-			oldID := idx2Block[a.pos]
-			if before > 0 && idx2Block[before-1] == oldID {
+		oldID := idx2Block[a.pos]
+		if a.pos < before {
+			// Line stays above inserted lines.
+			if upOK && idx2Block[before-1] == oldID {
 				return
 			}
-			if before < len(idx2Block) && idx2Block[before] == oldID {
+		} else {
+			// Line stays below inserted lines.
+			if downOK && idx2Block[before] == oldID {
 				return
 			}
 		}
@@ -522,7 +525,14 @@ func (s *State) diffIOSACLs(al, bl []*cmd, diff []edit.Range) {
 				p := s.printNetspocCmd(b)
 				p = stripLogRX.ReplaceAllLiteralString(p, "")
 				if cmdPos, found := delMap[p]; found {
-					moveACL(cmdPos, b, r.LowA, i, moveOK)
+					downOK := true
+					for _, b2 := range bl[r.LowB+i+1 : r.HighB] {
+						if getIOSAction(b2) != getIOSAction(b) {
+							downOK = false
+							break
+						}
+					}
+					moveACL(cmdPos, b, r.LowA, i, moveOK, downOK)
 				} else {
 					addACL(b, r.LowA, i)
 				}
